@@ -113,7 +113,7 @@ class Run(object):
                         line = "650 HS_DESC CREATED %s UNKNOWN UNKNOWN desc%s REPLICA=0\r\n" % (sid, e["d"])
                     else:
                         line = "650 HS_DESC %s %s NO_AUTH %s desc%s\r\n" % (e["k"], sid, d, e["d"])
-                elif a == "Uploaded":
+                elif a in ("Uploaded", "UploadedAgain"):
                     line = "650 HS_DESC UPLOADED %s UNKNOWN %s\r\n" % (sid, d)
                 else:
                     line = "650 HS_DESC FAILED %s UNKNOWN %s REASON=UPLOAD_REJECTED\r\n" % (sid, d)
